@@ -4,4 +4,5 @@ open RV.C18
 #print axioms commit_keeps
 #print axioms rollback_after_boundary_noop
 #print axioms history_refines_spec
+#print axioms two_wrappers_disjoint
 #print axioms buggy_add_breaks_rollback
